@@ -215,6 +215,12 @@ class BuildSystem():
 
             molecule = molecules[mol_idx]
 
+            # molecules that are ignored are neither built nor moved
+            if molecule.mol_name in self.ignore:
+                mol_idx += 1
+                pbar.update(1)
+                continue
+
             if all(["position" in molecule.nodes[node] for node in molecule.nodes]):
                 mol_idx += 1
                 pbar.update(1)
